@@ -7,7 +7,8 @@ spec -> impl: every history is built (a) from one concatenated text, (b) one sou
 cut — definitions, orders, serialization and diagnostic messages must coincide — and the built schema and the
 multiset of diagnostics must equal the model's (which is how "moving an extension before its definition changes
 nothing" is decided: the model is order-insensitive in exactly that way).  Executable builder: operations and
-fragments over several sources vs their concatenation.  impl -> spec: corpus schemas cut at random definition
+fragments over several sources vs their concatenation, and every history of DocBuilder.tla (kept definitions, build
+errors) under every split into sources.  impl -> spec: corpus schemas cut at random definition
 boundaries and with an extension moved before its definition, through Trace_Monitor.
 """
 import json
@@ -28,6 +29,19 @@ def run(chk):
     epath = os.path.join(chk.work, "emonitor.ndjson")
     vlib.write_ndjson(epath, [{"kind": r["kind"], "pairs": r["pairs"], "flags": r["flags"]} for r in erows])
     ebad = vlib.trace_validate(chk, "Trace_Monitor", "Trace_Monitor.cfg", epath, len(erows), timeout=6000)
+    # executable builder: every history of DocBuilder.tla under every split into sources (see X01)
+    dcases = os.path.join(chk.work, "docb_cases.ndjson")
+    with open(dcases, "w") as fo:
+        def on_json(v):
+            if v and v[0] == "CASE":
+                fo.write(json.dumps(v, separators=(",", ":")) + "\n")
+        r = vlib.tlc("MC_DocBuilder", "MC_DocBuilder_%s.cfg" % ("q" if chk.quick else "t"), chk.work, workers=8, on_json=on_json, timeout=3000)
+    vlib.tlc_must_pass(r, "MC_DocBuilder")
+    chk.add_tlc(r)
+    dsummary, dbad = vlib.replay_cases(chk, ["docb-replay"], dcases)
+    for row in dbad[:6]:
+        chk.violation({"class": "executable-builder-history", "items": row["items"], "split_mask": row["split_mask"]}, {"got": row["got"], "want": row["want"]})
+    chk.cov["executable_builder_runs"] = dsummary.get("runs", 0)
     chk.stage("corpus+executable")
     shown = 0
     for row in sorted(bad, key=lambda r: len(json.dumps(r["history"]))):
